@@ -200,6 +200,10 @@ def check(cx):
     r5.instance('add_user: if users.len() > max { max = users.len() } after the insert')
     okm = (len(asg) == 1 and asg[0].data['rhs'] == ('len', USERS) and ins and asg[0].seq > ins[0].seq
            and equivalent(asg[0].pc, Atom(('lt', mx, ('len', USERS))))[0])
+    if not okm and len(asg) == 1 and ins and asg[0].seq > ins[0].seq and asg[0].pc == T:
+        # the other idiom: max = max(max, users.len()) unconditionally
+        rhs = asg[0].data['rhs']
+        okm = isinstance(rhs, tuple) and rhs[0] == 'call' and rhs[1].split('::')[-1] == 'max' and set(rhs[2:]) == {mx, ('len', USERS)}
     if not okm:
         r5.violation('VolatileState::add_user|high-water', 'the maximum user count is not raised to users.len() after the insert', loc=fa)
     for fn, e in census:
@@ -284,7 +288,8 @@ def check(cx):
     limited = is_some(mxc)
     prev = None
     for e in adds:
-        if entails(e.pc, limited)[0]:
+        # the value returned by the increment (whether it sits in the limited branch only or is hoisted above the branch)
+        if sat(And(e.pc, limited)) is not None:
             prev = ('call', e.data['callee']) + tuple(e.data['args'])
     admit = Atom(('lt', prev, ('some_of', mxc))) if prev else F
     r4.instance('admission: previous count < max_connections')
